@@ -52,8 +52,10 @@ func vhExpectedQuery(relay, samlRequest string, signed bool, sigAlg, signature, 
 }
 
 func vhC14(logout bool) {
+	vB64AlphabetAxiom()
 	sp := vhRedirectSP()
 	sp.SignAuthnRequests = vFlag("signAuthnRequests")
+	sp.SignAuthnRequestsAlgorithm = vString("signAlgorithmConfigured")
 	doc := vhSomeDoc()
 	relay := vQueryString("relay")
 	redirect := vFlag("redirect-binding")
@@ -79,9 +81,29 @@ func vhC14(logout bool) {
 	vReach("built", true)
 	signed := logout || (sp.SignAuthnRequests && redirect)
 	samlRequest := vB64(vBytesOf(vDeflated(vSerialised(doc))))
-	sigAlg := "http://www.w3.org/2001/04/xmldsig-more#rsa-sha256"
-	// the Signature parameter, as the URL carries it
+	// the Signature parameter, as the URL carries it, and the hash it was really computed with
 	signature := vSignatureOf(out)
+	sigAlg := ""
+	if signed {
+		// what must have been signed, for each supported hash (SigAlg names that hash)
+		for _, cand := range []struct {
+			h   crypto.Hash
+			uri string
+		}{{crypto.SHA256, "http://www.w3.org/2001/04/xmldsig-more#rsa-sha256"}, {crypto.SHA1, "http://www.w3.org/2000/09/xmldsig#rsa-sha1"},
+			{crypto.SHA384, "http://www.w3.org/2001/04/xmldsig-more#rsa-sha384"}, {crypto.SHA512, "http://www.w3.org/2001/04/xmldsig-more#rsa-sha512"}} {
+			s := "SAMLRequest=" + vQEsc(samlRequest)
+			if relay != "" {
+				s += "&RelayState=" + vQEsc(relay)
+			}
+			s += "&SigAlg=" + vQEsc(cand.uri)
+			vSetSignedContent(s)
+			if vSignedHash(signature) == cand.h {
+				sigAlg = cand.uri
+				break
+			}
+		}
+		vAssert("C14.signature-made-with-a-supported-hash-over-the-spec-string", sigAlg != "")
+	}
 	want := vURLBase(endpoint) + "?" + vhExpectedQuery(relay, samlRequest, signed, sigAlg, signature, vURLTenant(endpoint), vURLHasTenant(endpoint))
 	vAssert("C14.url-is-endpoint-plus-exact-parameters", out == want)
 	if signed {
@@ -90,7 +112,7 @@ func vhC14(logout bool) {
 			s += "&RelayState=" + vQEsc(relay)
 		}
 		s += "&SigAlg=" + vQEsc(sigAlg)
-		vAssert("C14.signature-covers-the-ordered-percent-encoded-octets", vSigVerifies(signature, s, vRSAKey("sp"), crypto.SHA256))
+		vAssert("C14.signature-covers-the-ordered-percent-encoded-octets", vSigVerifies(signature, s, vRSAKey("sp"), vSignedHash(signature)))
 	}
 }
 
